@@ -172,15 +172,13 @@ func (w *ipamWorld) dump() map[string]interface{} {
 		ip := nets.IPToInt(inf.IPInfo.IP.IP)
 		ones, _ := inf.IPInfo.IP.Mask.Size()
 		sns := inf.NodeSubnets.List()
-		if inf.Key == "" {
-			if by, _ := w.ipam.ByIP(inf.IPInfo.IP.IP); by.Key == "" {
-				// free entries: ByPrefix("") lists both tables; an allocated entry with an empty key cannot be told apart
-				// from a free one through the public API except by trying - the harness reports it as free
-			}
+		_, res := inf.Labels[constant.ReserveFIPLabel]
+		if inf.Key == "" && !res {
+			// free entries: ByPrefix("") lists both tables.  An ALLOCATED entry with an empty key exists only as an
+			// administrator's label-only reservation, which carries the reserved label in memory too
 			unalloc = append(unalloc, ip)
 			continue
 		}
-		_, res := inf.Labels[constant.ReserveFIPLabel]
 		alloc = append(alloc, []interface{}{ip, inf.Key, inf.Policy, inf.NodeName, inf.PodUid, res,
 			[]interface{}{ones, nets.IPToInt(inf.IPInfo.Gateway), inf.IPInfo.Vlan, sns}})
 	}
